@@ -43,7 +43,9 @@ func (m *F81Model) Distance(seq1 []uint8, seq2 []uint8, weights []float64) (floa
 	} else {
 		dist = -1. * m.b1 * math.Log(1.-diff/m.b1)
 	}
-	if dist > 0 {
+	// A saturated pair gives NaN (log or power of a negative number):
+	// it must stay undefined, not become a distance of 0
+	if dist > 0 || math.IsNaN(dist) {
 		return dist, nil
 	}
 	return 0, nil
